@@ -332,16 +332,17 @@ func (p *VipnodePool) connect(ctx context.Context, nodeID string, req ConnectReq
 		}
 
 		p.mu.Lock()
+		if c, ok := service.(interface{ Closed() bool }); ok && c.Closed() {
+			// The connection ended while this request was in flight and its
+			// CloseRemote may already have run, so nothing would unregister
+			// it again. (A connection that ends from here on is marked closed
+			// before its CloseRemote takes the lock.)
+			p.mu.Unlock()
+			return nil, errors.New("connection closed during connect")
+		}
 		p.remoteHosts[node.ID] = service
 		p.remoteNodeLookup[service] = node.ID
 		p.mu.Unlock()
-
-		if c, ok := service.(interface{ Closed() bool }); ok && c.Closed() {
-			// The connection ended while this request was in flight and its
-			// CloseRemote may already have run, don't leave it registered.
-			p.CloseRemote(service)
-			return nil, errors.New("connection closed during connect")
-		}
 	}
 
 	if err := p.Store.SetNode(node); err != nil {
